@@ -539,54 +539,63 @@ impl<'a> Socket<'a> {
         let endpoint = self.endpoint;
         let hop_limit = self.hop_limit.unwrap_or(64);
 
-        let res = self.tx_buffer.dequeue_with(|packet_meta, payload_buf| {
-            let src_addr = if let Some(s) = packet_meta.local_address {
-                s
-            } else {
-                match endpoint.addr {
-                    Some(addr) => addr,
-                    None => match cx.get_source_address(&packet_meta.endpoint.addr) {
+        // A datagram that cannot be sent at all is dropped without anything being emitted.
+        // Go on with the next one in that case: returning would leave the socket asking
+        // for an immediate poll after a poll that transmitted nothing.
+        let mut emit = Some(emit);
+        loop {
+            let res = self.tx_buffer.dequeue_with(|packet_meta, payload_buf| {
+                let src_addr = if let Some(s) = packet_meta.local_address {
+                    s
+                } else {
+                    match endpoint.addr {
                         Some(addr) => addr,
-                        None => {
-                            net_trace!(
-                                "udp:{}:{}: cannot find suitable source address, dropping.",
-                                endpoint,
-                                packet_meta.endpoint
-                            );
-                            return Ok(());
-                        }
-                    },
+                        None => match cx.get_source_address(&packet_meta.endpoint.addr) {
+                            Some(addr) => addr,
+                            None => {
+                                net_trace!(
+                                    "udp:{}:{}: cannot find suitable source address, dropping.",
+                                    endpoint,
+                                    packet_meta.endpoint
+                                );
+                                return Ok(());
+                            }
+                        },
+                    }
+                };
+
+                net_trace!(
+                    "udp:{}:{}: sending {} octets",
+                    endpoint,
+                    packet_meta.endpoint,
+                    payload_buf.len()
+                );
+
+                let repr = UdpRepr {
+                    src_port: endpoint.port,
+                    dst_port: packet_meta.endpoint.port,
+                };
+                let ip_repr = IpRepr::new(
+                    src_addr,
+                    packet_meta.endpoint.addr,
+                    IpProtocol::Udp,
+                    repr.header_len() + payload_buf.len(),
+                    hop_limit,
+                );
+
+                // NOTE(unwrap): `emit` is only taken here, and the loop ends afterwards.
+                (emit.take().unwrap())(cx, packet_meta.meta, (ip_repr, repr, payload_buf))
+            });
+            match res {
+                Err(Empty) => return Ok(()),
+                Ok(Err(e)) => return Err(e),
+                Ok(Ok(())) => {
+                    #[cfg(feature = "async")]
+                    self.tx_waker.wake();
+                    if emit.is_none() {
+                        return Ok(());
+                    }
                 }
-            };
-
-            net_trace!(
-                "udp:{}:{}: sending {} octets",
-                endpoint,
-                packet_meta.endpoint,
-                payload_buf.len()
-            );
-
-            let repr = UdpRepr {
-                src_port: endpoint.port,
-                dst_port: packet_meta.endpoint.port,
-            };
-            let ip_repr = IpRepr::new(
-                src_addr,
-                packet_meta.endpoint.addr,
-                IpProtocol::Udp,
-                repr.header_len() + payload_buf.len(),
-                hop_limit,
-            );
-
-            emit(cx, packet_meta.meta, (ip_repr, repr, payload_buf))
-        });
-        match res {
-            Err(Empty) => Ok(()),
-            Ok(Err(e)) => Err(e),
-            Ok(Ok(())) => {
-                #[cfg(feature = "async")]
-                self.tx_waker.wake();
-                Ok(())
             }
         }
     }
